@@ -210,6 +210,11 @@ fn c03_scn(cfg: Cfg, full: bool) -> C03 {
     s.focus = Focus::all();
     s.extra_actions = Some(Box::new(move |_scn, v| {
         let mut acts = vec![];
+        // the witness may take the nickname the fresh connection is about to use
+        // (between its NICK and the completion of its registration)
+        if v.nick(0) == Some("wit") && v.life[1] == Life::Live && !v.registered(1) {
+            acts.push(Act::Send(0, "NICK n".into()));
+        }
         match &v.life[1] {
             Life::Unconnected => {
                 if v.depth == 0 {
